@@ -95,20 +95,24 @@ PROPS = {
     'C15': dict(quick=dict(profiles=[seq('C15', 480, 40)]), thorough=dict(profiles=[seq('C15', 3200, 100)])),
     'C16': dict(quick=dict(profiles=[seq('C16', 480, 40)]), thorough=dict(profiles=[seq('C16', 3200, 100)])),
     'C17': dict(quick=dict(profiles=[seq('C17', 480, 40)]), thorough=dict(profiles=[seq('C17', 3200, 100)])),
-    'C18': dict(quick=dict(profiles=[prof('notify', 480, 18), prof('blocking', 160, 24)]),
-                thorough=dict(profiles=[prof('notify', 16000, 28), prof('blocking', 3200, 40)]),
+    'C18': dict(quick=dict(profiles=[prof('notify', 480, 18), prof('blocking', 160, 24), prof('bstorm', 320, 20, race=True)]),
+                thorough=dict(profiles=[prof('notify', 16000, 28), prof('blocking', 3200, 40), prof('bstorm', 16000, 40, race=True)]),
                 rule="(a) schedules of Wait/Set/Close calls on the real notify.Offset driven instruction by instruction through the verif pause points "
                      "(token taken / probed / released / stored / closed): a controller picks which goroutine runs next, cancels contexts and spawns "
                      "calls; after every event the status of every call (held at a pause point, blocked in the library, returned with which result) is "
                      "compared with the Lean interleaving model under the same schedule; (b) the real BlockingLog with up to 8 waiters in "
                      "ConsumeBlocking/ConsumeByKeyBlocking (offsets relative, below, at and beyond NextOffset), publishes (also empty), deletes, reads, "
                      "GC, cancellations and Close issued one at a time, observed at quiescence: who returned with what (judged as a Consume/"
-                     "ConsumeByKey result at that moment) and who is still blocked; a case is one schedule, non-trivial when some waiter blocked and some "
-                     "waiter returned",
+                     "ConsumeByKey result at that moment) and who is still blocked; (c) free-running storms under the race detector: 2-8 waiters "
+                     "(offsets relative, below, inside, at and beyond what will be published), 1-3 publishers, cancellations, then Close; every "
+                     "answer must be one Consume/ConsumeByKey gives in some state the log went through (content, order, no holes, maxCount, next, "
+                     "an empty Consume answer only at its own offset, below the initial NextOffset never empty), every waiter whose offset was "
+                     "passed is back before Close, errors only ctx (if cancelled) / closed (after Close) / invalid offset (beyond NextOffset); a "
+                     "case is one schedule, non-trivial when some waiter blocked and some waiter returned",
                 assumptions=["Go channel semantics (buffered channel of capacity 1 as a token, close wakes all receivers, select picks any ready case) are the "
                              "parameters of the model (trusted)",
                              "quiescence is observed by polling with a grace period of 3 s for calls that are due to return",
-                             "free-running publishers concurrent with waiters are exercised under C08's free profile, judged there"]),
+                             "in the storms 'stays blocked while nothing happens' cannot be observed (publishes happen all the time); the notify and blocking profiles observe it"]),
     'C19': dict(quick=dict(profiles=[prof('lock', 3200, 12), seq('C19', 144, 24)]), thorough=dict(profiles=[prof('lock', 40000, 16), seq('C19', 800, 50)])),
     'C20': dict(quick=dict(profiles=[seq('C20', 384, 30)]), thorough=dict(profiles=[seq('C20', 2400, 60)])),
 }
